@@ -6,6 +6,7 @@ package c14
 
 import (
 	"fmt"
+	"os"
 	"strconv"
 	"strings"
 
@@ -35,7 +36,7 @@ func init() {
 			"combo:from-end+count+bounds", "combo:key+test", "combo:key+test-on-string", "seq:list", "seq:vector", "seq:string", "seq:nil",
 			"stable-sort:equal-keys", "merge:equal-keys", "fam:item", "fam:if", "fam:substitute", "fam:substitute-if", "fam:duplicates",
 			"fam:reverse", "fam:two-sequence", "fam:subseq", "fam:fill", "fam:sort", "fam:merge", "fam:set", "fam:quantifier", "fam:map",
-			"fam:reduce", "fam:concatenate"},
+			"fam:reduce", "fam:concatenate", "fam:map-direct", "map-direct:judged"},
 		Bound:    bound,
 		Selftest: selftest,
 	})
@@ -220,7 +221,14 @@ func hasCountKw(fn string) bool {
 
 // enumerate emits every case of the tier; only (optional) is a function-name
 // filter used by the self-test.
-func enumerate(tier string, emit func(string)) { enumerateFn(tier, "", emit) }
+func enumerate(tier string, emit func(string)) {
+	if os.Getenv("C14_ONLY") == "mapdirect" { // development aid
+		enumMapDirect(tier, emit)
+		return
+	}
+	enumerateFn(tier, "", emit)
+	enumMapDirect(tier, emit)
+}
 
 func enumerateFn(tier, only string, emit func(string)) {
 	cf := config(tier)
